@@ -23,6 +23,7 @@ CONSTANTS
   FIX_RETRY = TRUE
   FIX_OVERFLOW = TRUE
   QMax = 99
+  LooseFilter = TRUE
   RECORD = FALSE
 INVARIANTS NotDone
 CHECK_DEADLOCK FALSE
